@@ -12,7 +12,7 @@ def run_item(item):
     """item: {'type': 'block', 'spec': BlockSpec, 'reduction': bool} or {'type': 'model', 'spec': c09 params}"""
     if item['type'] == 'block':
         from harness import blocks
-        o, es, ex = blocks.solve(item['spec'], reduction=item['reduction'])
+        o, es, ex = blocks.solve(item['spec'], reduction=item['reduction'], steady=item.get('steady'))
         return o, {k: list(v) for k, v in es.TimeSeries.items()}
     if item['type'] == 'econ':
         from harness import econ
